@@ -203,7 +203,7 @@ def run(ck, rnd, quick, spec_failures, disagreements, dist, part="tables"):
     from sqllineage.core.parser.sqlfluff.analyzer import SqlFluffLineageAnalyzer
     from sqllineage.exceptions import SQLLineageException
     from sqllineage.runner import LineageRunner
-    n = 30 if quick else 600
+    n = 20 if quick else 600
     if part == "columns":
         return run_columns(ck, quick, spec_failures, disagreements, dist, n)
     cases = FIXED + [gen_dml(k) for k in ("update", "merge", "into") for _ in range(n)]
